@@ -33,7 +33,10 @@ _COUNTER = itertools.count(1)
 
 class _State:
     scheduler = None  # callable(list[ObjectRef]) -> index of the ref that "finishes first"
+    exec_order = None  # None: a job runs at submission (submission order). callable(list[ObjectRef]) -> list of the same
+    #                    refs in the order in which the not-yet-executed jobs of a batch are to be executed (lazy mode)
     job_log: list = []  # (func name, job serial)
+    exec_log: list = []  # (func name, serials in execution order) per lazily executed batch
     wait_log: list = []  # (func name, tuple(pending serials), chosen serial)
     base_seed = 0
     job_serial = 0
@@ -61,11 +64,12 @@ def _lookup(ref_id):
 
 
 class ObjectRef:
-    __slots__ = ("id", "data", "bufs", "func", "serial", "error", "__weakref__")
+    __slots__ = ("id", "data", "bufs", "func", "serial", "error", "pending", "__weakref__")
 
-    def __init__(self, data=None, bufs=None, func=None, serial=None, error=None):
+    def __init__(self, data=None, bufs=None, func=None, serial=None, error=None, pending=None):
         self.id = next(_COUNTER)
         self.data, self.bufs, self.func, self.serial, self.error = data, bufs, func, serial, error
+        self.pending = pending  # (RemoteFunction, args, kwargs) of a job that has not been executed yet (lazy mode)
         _STORE[self.id] = self
 
     def __reduce__(self):
@@ -86,9 +90,18 @@ def put(value):
     return ObjectRef(data, bufs, func="put")
 
 
+def _ensure(ref):
+    """Execute a lazily submitted job if it has not run yet."""
+    if ref.pending is not None:
+        rf, a, k = ref.pending
+        ref.pending = None
+        rf._execute(ref, a, k)  # noqa: SLF001
+
+
 def _get_one(ref):
     if not isinstance(ref, ObjectRef):
         raise TypeError(f"ray.get expects ObjectRef, got {type(ref)}")
+    _ensure(ref)
     if ref.error is not None:
         raise ref.error
     return _load(ref.data, ref.bufs)
@@ -104,6 +117,12 @@ def wait(refs, num_returns=1, timeout=None, fetch_local=True):
     refs = list(refs)
     if not refs:
         return [], []
+    todo = [r for r in refs if r.pending is not None]
+    if todo:
+        order = list(STATE.exec_order(todo)) if STATE.exec_order is not None else todo
+        STATE.exec_log.append((todo[0].func, tuple(r.serial for r in order)))
+        for r in order:
+            _ensure(r)
     sched = STATE.scheduler
     idx = 0 if sched is None else int(sched(refs))
     idx = max(0, min(idx, len(refs) - 1))
@@ -127,6 +146,15 @@ class RemoteFunction:
         # top-level ObjectRef arguments are resolved by Ray; nested ones are not
         a = tuple(_get_one(x) if isinstance(x, ObjectRef) else x for x in a)
         STATE.job_log.append((self.__name__, serial))
+        ref = ObjectRef(func=self.__name__, serial=serial)
+        if STATE.exec_order is not None:
+            ref.pending = (self, a, k)  # arguments were pickled at submission, like Ray does
+            return ref
+        self._execute(ref, a, k)
+        return ref
+
+    def _execute(self, ref, a, k):
+        serial = ref.serial
         if STATE.on_job is not None:
             STATE.on_job(self.__name__, serial, a)
         st_np = _np.random.get_state()
@@ -134,16 +162,14 @@ class RemoteFunction:
         _np.random.seed([STATE.base_seed & 0xFFFFFFFF, serial & 0xFFFFFFFF, 0xC0FFEE])
         try:
             result = self._function(*a, **k)
-            rdata, rbufs = _roundtrip(result)
-            ref = ObjectRef(rdata, rbufs, func=self.__name__, serial=serial)
+            ref.data, ref.bufs = _roundtrip(result)
         except Exception as err:  # noqa: BLE001 - surfaced on get(), like a RayTaskError
-            ref = ObjectRef(func=self.__name__, serial=serial, error=err)
+            ref.error = err
         finally:
             _np.random.set_state(st_np)
             _pyrandom.setstate(st_py)
         if STATE.after_job is not None:
             STATE.after_job(self.__name__, serial, ref)
-        return ref
 
     def options(self, **_kw):
         return self
@@ -218,7 +244,7 @@ def timeline(*_a, **_k):
     return None
 
 
-def reset(base_seed: int = 0, scheduler=None, keep_actors: bool = False):
+def reset(base_seed: int = 0, scheduler=None, keep_actors: bool = False, exec_order=None):
     """Start a fresh 'cluster': empty object store, job counter and logs."""
     _STORE.clear()
     STATE.job_log = []
@@ -226,6 +252,8 @@ def reset(base_seed: int = 0, scheduler=None, keep_actors: bool = False):
     STATE.job_serial = 0
     STATE.base_seed = int(base_seed)
     STATE.scheduler = scheduler
+    STATE.exec_order = exec_order
+    STATE.exec_log = []
     STATE.on_job = None
     STATE.after_job = None
     if not keep_actors:
@@ -235,6 +263,26 @@ def reset(base_seed: int = 0, scheduler=None, keep_actors: bool = False):
 def gc_store():
     """Drop stored objects (called between steps by the harness to bound memory)."""
     _STORE.clear()
+
+
+# ---- execution orders (lazy mode) ---------------------------------------------------------------
+def exec_reverse(refs):
+    return list(reversed(refs))
+
+
+def make_exec_random(seed):
+    rng = _pyrandom.Random(seed)
+
+    def _e(refs):
+        lst = list(refs)
+        rng.shuffle(lst)
+        return lst
+
+    return _e
+
+
+def exec_submission(refs):
+    return list(refs)
 
 
 # ---- schedulers -----------------------------------------------------------------------------
